@@ -16,6 +16,11 @@ B == W("b")
 J == [k |-> "Judgement"]
 Txt(toks) == CanonText(toks)
 Sent(t, p, st, tr) == Sentence(t, p, st, tr)
+\* the longest proper prefix, made of name characters, of some copula (ASCII "--" of "-->", Han "具" of "具有"); <<>> if none
+NameHeads == {h \in UNION {{SubSeq(F.cop[k], 1, i) : i \in 1..(Len(F.cop[k]) - 1)} : k \in CopKinds} : \A j \in 1..Len(h) : h[j] \in NameChars}
+CopulaHead == IF NameHeads = {} THEN <<>> ELSE CHOOSE s \in NameHeads : \A u \in NameHeads : Len(u) <= Len(s)
+CopulaTail == IF CopulaHead = <<>> THEN <<>> ELSE LET k == CHOOSE k \in CopKinds : SubSeq(F.cop[k], 1, Len(CopulaHead)) = CopulaHead /\ Len(F.cop[k]) > Len(CopulaHead)
+                                                  IN SubSeq(F.cop[k], Len(CopulaHead) + 1, Len(F.cop[k]))
 \* fragments: complete values, partial inputs that leave slots filled, invalid inputs that fail half-way
 Pool == <<
   Format(AsTask(<<"0.5">>, Sent(A, "Judgement", [k |-> "Present"], <<"1", "0.9">>))),           \* 1 complete task
@@ -33,7 +38,10 @@ Pool == <<
   Txt(T(F.punct["Goal"], "n")),                                                                    \* 13 punctuation only
   Format(AsTerm(IV("x"))),                                                                       \* 14 a term that starts like a budget
   Format(AsSentence(Sent(QV("z"), "Question", [k |-> "Eternal"], <<>>))),                        \* 15 ?z?
-  Txt(EndWith(BudgetToks(<<>>), "i") \o TermToks(B) \o T(F.punct["Goal"], "n"))                     \* 16 task with empty budget
+  Txt(EndWith(BudgetToks(<<>>), "i") \o TermToks(B) \o T(F.punct["Goal"], "n")),                    \* 16 task with empty budget
+  <<"x">> \o CopulaHead,                                                                         \* 17 a name that ends with the first character(s) of a copula
+  Txt(TermToks([k |-> "SetIntension", s |-> {W("ab")}])),                                         \* 18 a longer text whose tail can complete a copula after input 17
+  <<"x", "y">> \o CopulaHead \o CopulaTail                                                       \* 19 ... and one that ends with a whole copula
 >>
 
 Init == hist = <<>> /\ slots = EmptyMid /\ outs = <<>>
